@@ -323,8 +323,12 @@ func (w *World) FertFile() string {
 	if w.Decoys > 0 {
 		fmt.Fprintf(&b, "%s %03d %s %s%s", pad("ZZDECOY", 9), 100, pad("KAS", 3), FmtDate(w.Start()+30, df), e)
 	}
-	for _, f := range w.Fert {
+	for k, f := range w.Fert {
 		fmt.Fprintf(&b, "%s %03d %s %s%s", pad(w.Field, 9), f.Amt, pad(f.Type, 3), FmtDate(f.Day, df), e)
+		if w.Decoys > 1 && k%3 == 1 {
+			// another field's line between the lines of this field (files sorted by date rather than by field)
+			fmt.Fprintf(&b, "%s %03d %s %s%s", pad("ZZDECOY2", 9), 90, pad("KAS", 3), FmtDate(f.Day, df), e)
+		}
 	}
 	b.WriteString("end" + e)
 	return b.String()
@@ -336,8 +340,11 @@ func (w *World) IrrFile() string {
 	var b strings.Builder
 	b.WriteString("Field_ID  Ir N03 date" + e)
 	b.WriteString("          mm mg/l " + e)
-	for _, f := range w.Irr {
+	for k, f := range w.Irr {
 		fmt.Fprintf(&b, "%s %3d %3d %s%s", pad(w.Field, 9), f.MM, f.NO3, FmtDate(f.Day, df), e)
+		if w.Decoys > 1 && k%3 == 1 {
+			fmt.Fprintf(&b, "%s %3d %3d %s%s", pad("ZZDECOY2", 9), 25, 10, FmtDate(f.Day, df), e)
+		}
 	}
 	if w.Decoys > 0 {
 		fmt.Fprintf(&b, "%s %3d %3d %s%s", pad("ZZDECOY", 9), 15, 20, FmtDate(w.Start()+30, df), e)
@@ -355,8 +362,11 @@ func (w *World) TillFile() string {
 	if w.Decoys > 0 {
 		fmt.Fprintf(&b, "%s %3d %d   %s%s", pad("ZZDECOY", 9), 30, 1, FmtDate(w.Start()+40, df), e)
 	}
-	for _, f := range w.Till {
+	for k, f := range w.Till {
 		fmt.Fprintf(&b, "%s %3d %d   %s%s", pad(w.Field, 9), f.Depth, f.Type, FmtDate(f.Day, df), e)
+		if w.Decoys > 1 && k%3 == 1 {
+			fmt.Fprintf(&b, "%s %3d %d   %s%s", pad("ZZDECOY2", 9), 15, 1, FmtDate(f.Day, df), e)
+		}
 	}
 	if w.BadEnt && len(w.Rot) > 1 {
 		mid := w.Rot[1].Sow + (w.Rot[1].Harvest-w.Rot[1].Sow)/2
